@@ -103,6 +103,8 @@ def floors(tier):
         'e2e:regenerate-plain': 80 if q else 800,
         'e2e:regenerate-lazy-cli': 70 if q else 700,
         'e2e:regenerate-old-format': 20 if q else 200,
+        'e2e:symlinked-layout': 8 if q else 120,
+        'e2e:builddir-named-by-another-spelling': 4 if q else 60,
         'e2e:regenerate-lazy-backend': 50 if q else 500,
         'e2e:backend-triggered-regeneration': 50 if q else 500,
         'e2e:regenerate-E2': 100 if q else 1000,
@@ -1280,7 +1282,10 @@ def gen_e2e(rng, idx):
         'form': rng.choice(['rel', 'abs', 'into', 'frombuild']),
         'e1': e1, 'path1': path1, 'conf': conf, 'e2': e2,
         'cwd2': rng.choice(['root', 'scratch', 'builddir', 'srcdir', 'home2']),
-        'bdarg2': rng.choice(['abs', 'rel']),
+        'bdarg2': rng.choice(['abs', 'rel', 'phys', 'rel-logical', 'omit']),
+        'trailing_slash': rng.random() < 0.3,
+        # source and build directories reached through a symlinked spelling
+        'link': rng.random() < 0.5,
         'regen_alias': rng.random() < 0.15,
         'lazy_order': rng.choice([['E1', 'E2'], ['E2', 'E1'], ['E2', 'E2']]),
         'backend_order': rng.choice([['E1', 'E2'], ['E2', 'E1'], ['E2', 'E2']]),
@@ -1410,8 +1415,25 @@ def _run_e2e(case, res, S):
                                             os.X_OK):
         res.exclude('no ninja executable for configure-time detection')
         return
-    src = os.path.join(S, case['srcname'])
-    bd = os.path.normpath(os.path.join(S, case['buildname']))
+    # logical spellings (through the symlink <S>/lnk -> <S>/real when the case
+    # asks for it); the physical ones are what getcwd() reports inside them
+    base = S
+    if case.get('link'):
+        os.makedirs(os.path.join(S, 'real'))
+        os.symlink('real', os.path.join(S, 'lnk'))
+        base = os.path.join(S, 'lnk')
+    src = os.path.join(base, case['srcname'])
+    bd = os.path.normpath(os.path.join(base, case['buildname']))
+
+    def spelled(cwd_, arg):
+        """The absolute spelling bfg9000 derives from a path argument: the
+        process's working directory as the kernel reports it, joined lexically
+        with the argument (no symlink resolution)."""
+        if arg is None:
+            return os.path.realpath(cwd_)
+        if os.path.isabs(arg):
+            return os.path.normpath(arg)
+        return os.path.normpath(os.path.join(os.path.realpath(cwd_), arg))
     files = dict(PROJECT_CROSS if case.get('cross') else PROJECT)
     proj.write_tree(src, files)
     for d in ('p1', 'p2', 'decoy', 'home2', 'inst', 'sdk/include', 'poison'):
@@ -1464,14 +1486,21 @@ def _run_e2e(case, res, S):
     if form == 'frombuild':
         os.makedirs(bd, exist_ok=True)
         cwd, dirargs, sub = bd, [src], 'configure'
+        exp_src, exp_bd = spelled(cwd, src), spelled(cwd, None)
     elif form == 'into':
         cwd, dirargs, sub = S, [os.path.relpath(src, S), os.path.relpath(bd, S)], \
             'configure-into'
+        exp_src, exp_bd = spelled(cwd, dirargs[0]), spelled(cwd, dirargs[1])
     elif form == 'abs':
         cwd, dirargs, sub = src, [bd], 'configure'
+        exp_src, exp_bd = spelled(cwd, None), spelled(cwd, bd)
     else:
         cwd, dirargs, sub = src, [os.path.relpath(bd, src)], 'configure'
+        exp_src, exp_bd = spelled(cwd, None), spelled(cwd, dirargs[0])
     args = [os.path.relpath(tc_path, cwd) if a is None else a for a in args]
+    exp_tc = None
+    if tc_path:
+        exp_tc = spelled(cwd, args[args.index('--toolchain') + 1])
     argv = [bfg, sub] + dirargs + ['--backend', backend,
                                    '--no-resolve-packages'] + args
     rc, out = core.run(argv, cwd=cwd, env=e1, timeout=120)
@@ -1513,9 +1542,9 @@ def _run_e2e(case, res, S):
         ('extra_args', data['extra_args'], conf['extra']),
         ('backend', data['backend'], backend),
         ('toolchain', data['toolchain']['path'] and data['toolchain']['path'][0],
-         tc_path),
-        ('srcdir', _strip_slash(data['srcdir'][0]), src),
-        ('builddir', _strip_slash(data['builddir'][0]), bd),
+         exp_tc),
+        ('srcdir', _strip_slash(data['srcdir'][0]), exp_src),
+        ('builddir', _strip_slash(data['builddir'][0]), exp_bd),
         ('install_dirs', {k: data['install_dirs'].get(k) and
                           [_strip_slash(data['install_dirs'][k][0]),
                            data['install_dirs'][k][1]] for k in exp_dirs},
@@ -1542,7 +1571,32 @@ def _run_e2e(case, res, S):
     cwds = {'root': '/', 'scratch': S, 'builddir': bd, 'srcdir': src,
             'home2': os.path.join(S, 'home2')}
     cwd2 = cwds[case['cwd2']]
-    bdarg2 = bd if case['bdarg2'] == 'abs' else os.path.relpath(bd, cwd2)
+    kind2 = case['bdarg2']
+    if kind2 == 'omit' and case['cwd2'] != 'builddir':
+        kind2 = 'abs'
+    if kind2 == 'rel-logical' and case['cwd2'] not in ('root', 'scratch'):
+        kind2 = 'rel'
+    if kind2 == 'abs':
+        bdarg2 = bd                                        # logical spelling
+    elif kind2 == 'phys':
+        bdarg2 = os.path.realpath(bd)                      # physical spelling
+    elif kind2 == 'rel-logical':
+        bdarg2 = os.path.relpath(bd, cwd2)                 # through the link
+    elif kind2 == 'omit':
+        bdarg2 = None                                      # default: '.'
+    else:
+        bdarg2 = os.path.relpath(os.path.realpath(bd), os.path.realpath(cwd2))
+    if bdarg2 is not None and case.get('trailing_slash'):
+        bdarg2 = bdarg2.rstrip('/') + '/'
+    bd_args = [] if bdarg2 is None else [bdarg2]
+    if case.get('link'):
+        res.ev('e2e:symlinked-layout')
+    if spelled(cwd2, bdarg2) != exp_bd or spelled(bd, None) != exp_bd:
+        # a later invocation (CLI argument, or the back end's own `regenerate
+        # --lazy` from inside the directory) names the build directory by
+        # another spelling than the one saved at configure time
+        res.ev('e2e:builddir-named-by-another-spelling')
+    run_args = [] if bdarg2 is None else ['-B', bdarg2]
     regen = 'refresh' if case['regen_alias'] else 'regenerate'
     wit.update(e2_set=_sub(case['e2']['set'], S), e2_unset=case['e2']['unset'],
                e2_path=path2, e1_path=path1, cwd2=cwd2, builddir_arg=bdarg2)
@@ -1550,13 +1604,13 @@ def _run_e2e(case, res, S):
     # itself uses): twice through the CLI, twice triggered by the back end
     # after an input became newer.  Drift accumulates, so every stage is
     # compared with the one before, which transitively is the configure's.
-    envs = {'E1': (e1, src, bd), 'E2': (e2, cwd2, bdarg2)}
+    envs = {'E1': (e1, src, [bd]), 'E2': (e2, cwd2, bd_args)}
     stages = [{'name': 'E1', 'mode': 'plain', 'argv': [bfg, 'regenerate', bd]},
-              {'name': 'E2', 'mode': 'plain', 'argv': [bfg, regen, bdarg2]}]
+              {'name': 'E2', 'mode': 'plain', 'argv': [bfg, regen] + bd_args}]
     lazy_cli, lazy_backend = [], []
     for name in case.get('lazy_order', ['E1', 'E2']):
         lazy_cli.append({'name': name, 'mode': 'lazy-cli',
-                         'argv': [bfg, 'regenerate', '--lazy', envs[name][2]]})
+                         'argv': [bfg, 'regenerate', '--lazy'] + envs[name][2]})
     for name in case.get('backend_order', ['E2', 'E1']):
         if backend == 'make':
             argv_b = ['/usr/bin/make', '--no-print-directory', 'Makefile']
@@ -1570,7 +1624,7 @@ def _run_e2e(case, res, S):
         # the snapshot rewritten the way an older release stored it, then a plain
         # regenerate under E2: same build files, same (re-saved) configuration
         stages.append({'name': 'E2', 'mode': 'old-format',
-                       'argv': [bfg, 'regenerate', bdarg2],
+                       'argv': [bfg, 'regenerate'] + bd_args,
                        'version': case['old_version']})
     prev_files, prev_snap, prev_name, prev_raw = F0, S0, 'configure', raw0
     environ_file = os.path.join(bd, '.bfg_environ')
@@ -1655,7 +1709,7 @@ def _run_e2e(case, res, S):
 
     # ---- env / run under E2
     env_bin = '/usr/bin/env'
-    rc, out = core.run([bfg, 'env', bdarg2], cwd=cwd2, env=e2, timeout=60)
+    rc, out = core.run([bfg, 'env'] + bd_args, cwd=cwd2, env=e2, timeout=60)
     res.ev('e2e:env')
     want_lines = sorted('%s=%s' % kv for kv in want_cur.items())
     got_lines = sorted(out.split('\n')[:-1]) if out.endswith('\n') else \
@@ -1667,7 +1721,7 @@ def _run_e2e(case, res, S):
                          missing=[l for l in want_lines if l not in got_lines][:6]))
     for flag, want, counter in (([], want_cur, 'e2e:run'),
                                 (['-I'], want_init, 'e2e:run-initial')):
-        rc, out = core.run([bfg, 'run'] + flag + ['-B', bdarg2, '--', env_bin, '-0'],
+        rc, out = core.run([bfg, 'run'] + flag + run_args + ['--', env_bin, '-0'],
                            cwd=cwd2, env=e2, timeout=60)
         res.ev(counter)
         got = parse_env0(out)
@@ -1684,7 +1738,9 @@ def _run_e2e(case, res, S):
                e2.get('CFLAGS') != e1.get('CFLAGS'))
     res.key(['e2e', case], nontriv)
     res.classes.update(['e2e:form=' + case['form'], 'e2e:backend=' + backend,
-                        'e2e:cwd2=' + case['cwd2'], 'e2e:bdarg2=' + case['bdarg2'],
+                        'e2e:cwd2=' + case['cwd2'], 'e2e:bdarg2=' + kind2,
+                        'e2e:symlinked=%s' % bool(case.get('link')),
+                        'e2e:trailing-slash=%s' % bool(case.get('trailing_slash')),
                         'e2e:toolchain=%s' % (case['tc_ops'] is not None),
                         'e2e:which-sensitive=%s' % sensitive,
                         'e2e:shared=%s,static=%s' % (conf['shared'], conf['static']),
@@ -1743,6 +1799,11 @@ def classify_regen(problem, stage, case, Sn, S0, want_cur, alt_cur, which_keys, 
        '\\' in detail.get('first', '') and \
        detail['first'].replace('\\', '/') == detail.get('second'):
         return FLAVOUR_MECH
+    for i in ('builddir', 'srcdir'):
+        if Sn['data'].get(i) != S0['data'].get(i):
+            # the directory as spelled at configure time was replaced (by the
+            # spelling of this invocation's argument or working directory)
+            return ('e2e', 'saved-directory-respelled', i)
     # the project's system_executable('mytool'): present in several PATH dirs
     if (kind == 'exit-status' and "'mytool'" in detail['output']) or \
        (kind == 'buildfile-differs' and 'mytool' in detail.get('first', '') and
